@@ -328,7 +328,11 @@ def slow_strategy():
 
 
 def service_strategy():
-  return _session(SERVICE_CHEAP + ('NOT_REGISTERED',), 'service')
+  # 'predecessor': the same server process earlier hosted - and deleted - a
+  # study of the same name and algorithm with a different search space
+  return st.tuples(_session(SERVICE_CHEAP + ('NOT_REGISTERED',), 'service'),
+                   st.sampled_from([False, False, True])).map(
+                       lambda t: dict(t[0], predecessor=t[1]))
 
 
 @st.composite
@@ -823,6 +827,25 @@ def check_service_session(case):
   conditional = oi.is_conditional(spec)
   s = svc.make_servicer('ram')
   try:
+    if case.get('predecessor'):
+      out.cls('predecessor_study_same_name')
+      old_sc = svz.StudyConfig(algorithm=name)
+      old_sc.search_space.root.add_float_param('zz_old', 100.0, 200.0)
+      old_sc.search_space.root.add_categorical_param('cc_old', ['p', 'q'])
+      for mname, goal in case['metrics']:
+        old_sc.metric_information.append(vz.MetricInformation(
+            mname, goal=getattr(vz.ObjectiveMetricGoal, goal)))
+      old_pb = svc.create_study(s, 'o', 'c03', config=old_sc)
+      try:
+        old_user = clients.Study(vizier_client.VizierClient(
+            old_pb.name, 'user', s))
+        for tc in old_user.suggest(count=2, client_id='old'):
+          tc.complete(vz.Measurement(
+              metrics={n: 1.0 for n in metric_names}))
+        old_user.suggest(count=1, client_id='old')
+      except Exception:  # pylint: disable=broad-except
+        pass  # what the predecessor does is not judged
+      s.DeleteStudy(svc.vsp.DeleteStudyRequest(name=old_pb.name))
     study_pb = svc.create_study(s, 'o', 'c03', config=sc)
     sname = study_pb.name
 
